@@ -258,6 +258,11 @@ def expand_splices(body):
             i += 1
             continue
         if s.startswith("//@ include-job"):
+            if s.split()[2] in INCLUDED:
+                out.append("// (job %s already included)" % s.split()[2])
+                i += 1
+                continue
+            INCLUDED.add(s.split()[2])
             inc = os.path.join(os.path.dirname(JOBDIR[0]), s.split()[2])
             sub, d = expand_splices("\n".join(l for l in open(inc).read().split("\n") if not l.startswith("//@ verus")))
             out.append("// ---- included job %s ----" % s.split()[2])
@@ -270,6 +275,7 @@ def expand_splices(body):
     return "\n".join(out), dropped
 
 
+INCLUDED = set()
 JOBDIR = [os.path.join(os.path.dirname(os.path.dirname(os.path.abspath(__file__))), "verus", "extract", "x")]
 
 
